@@ -174,8 +174,9 @@ def draw(rng):
         else:
             ins = []
         for x in ins:
-            # by value, unless an observer borrows the same type (known C01 defect: observers run after the handler)
-            if x[0] not in obs_types and ctors[x[0]]["life"] != "singleton" and ctors[x[0]]["cloning"] and rng.random() < 0.5:
+            # by value (cloneable types only); an observer may borrow the same value after the handler took it: pavexc
+            # clones it for the handler (the happens-before edge handler -> first observer, fix 0fa7412)
+            if ctors[x[0]]["life"] != "singleton" and ctors[x[0]]["cloning"] and rng.random() < 0.5:
                 x[1] = "val"
         ehs.append({"k": k, "target": target, "ins": ins, "status": (590 + k % 9) if target == ["any"] else 520 + k})
         return k
